@@ -122,6 +122,69 @@ fn finish(r: Result<Vec<Cell>, u8>) -> Vec<Cell> {
     }
 }
 
+/// `nth(k)` must be `k + 1` calls of `next()` (std's Iterator contract), also for the size hint it leaves behind: an adaptor
+/// that overrides `nth` / `nth_back` with its own bookkeeping is exercised here.  Model-free relational oracle: on a
+/// violation the cells `Err k hint_upper remaining` are appended, which no model output contains.
+/// cell equality with NaN == NaN
+fn same(a: &[Cell], b: &[Cell]) -> bool { format!("{:?}", a) == format!("{:?}", b) }
+fn nth_consistency<'a, T: Obs>(mk: &dyn Fn() -> BI<'a, T>, mask: u8, out: &mut Vec<Cell>) {
+    for k in 0..3usize {
+        let mut a = mk();
+        let mut b = mk();
+        let xa = a.nth(k);
+        let mut xb = None;
+        for _ in 0..=k { xb = b.next(); if xb.is_none() { break; } }
+        let (mut ca, mut cb) = (vec![], vec![]);
+        match xa { Some(x) => x.put(mask, &mut ca), None => ca.push(Cell::Null) }
+        match xb { Some(x) => x.put(mask, &mut cb), None => cb.push(Cell::Null) }
+        let ha = a.size_hint();
+        let hb = b.size_hint();
+        let ra = count_rest(&mut *a);
+        let rb = count_rest(&mut *b);
+        if !same(&ca, &cb) || ha != hb || ra != rb {
+            out.push(Cell::Err);
+            out.push(Cell::Int(k as i128));
+            out.push(match ha.1 { Some(u) => Cell::Int(u as i128), None => Cell::Null });
+            out.push(Cell::Int(ra as i128));
+            return;
+        }
+    }
+}
+fn nth_back_consistency<'a, T: Obs>(mk: &dyn Fn() -> BD<'a, T>, mask: u8, out: &mut Vec<Cell>) {
+    for k in 0..3usize {
+        let mut a = mk();
+        let mut b = mk();
+        let xa = a.nth_back(k);
+        let mut xb = None;
+        for _ in 0..=k { xb = b.next_back(); if xb.is_none() { break; } }
+        let (mut ca, mut cb) = (vec![], vec![]);
+        match xa { Some(x) => x.put(mask, &mut ca), None => ca.push(Cell::Null) }
+        match xb { Some(x) => x.put(mask, &mut cb), None => cb.push(Cell::Null) }
+        let ha = a.size_hint();
+        let hb = b.size_hint();
+        let ra = count_rest(&mut *a);
+        let rb = count_rest(&mut *b);
+        // and forward nth on the double-ended iterator
+        let mut c = mk();
+        let mut d = mk();
+        let xc = c.nth(k);
+        let mut xd = None;
+        for _ in 0..=k { xd = d.next(); if xd.is_none() { break; } }
+        let (mut cc, mut cd) = (vec![], vec![]);
+        match xc { Some(x) => x.put(mask, &mut cc), None => cc.push(Cell::Null) }
+        match xd { Some(x) => x.put(mask, &mut cd), None => cd.push(Cell::Null) }
+        let (hc, hd) = (c.size_hint(), d.size_hint());
+        let (rc, rd) = (count_rest(&mut *c), count_rest(&mut *d));
+        if !same(&ca, &cb) || ha != hb || ra != rb || !same(&cc, &cd) || hc != hd || rc != rd {
+            out.push(Cell::Err);
+            out.push(Cell::Int(k as i128));
+            out.push(match ha.1 { Some(u) => Cell::Int(u as i128), None => Cell::Null });
+            out.push(Cell::Int(ra as i128));
+            return;
+        }
+    }
+}
+
 /// forward-only observation: `steps` calls of next(); at every point hint + plain count of the rest
 fn observe_fwd<'a, T: Obs>(mk: &dyn Fn() -> BI<'a, T>, steps: usize, mask: u8) -> Vec<Cell> {
     finish(guarded(AssertUnwindSafe(|| {
@@ -149,6 +212,7 @@ fn observe_fwd<'a, T: Obs>(mk: &dyn Fn() -> BI<'a, T>, steps: usize, mask: u8) -
                 break;
             }
         }
+        nth_consistency(mk, mask, &mut out);
         out.push(Cell::Sep);
         out
     })))
@@ -204,6 +268,7 @@ fn observe_dei<'a, T: Obs>(mk: &dyn Fn() -> BD<'a, T>, script: &[bool], mask: u8
                 break;
             }
         }
+        nth_back_consistency(mk, mask, &mut out);
         out.push(Cell::Sep);
         out
     })))
